@@ -318,6 +318,13 @@ func genKeyRT(r *rng, n int, p func(string, ...any)) {
 	for _, cn := range []string{"p256", "p384", "p521"} {
 		c, _ := curveOf(cn)
 		size := (c.Params().BitSize + 7) / 8
+		// a coordinate equal to zero (the point with x = 0 is on each of the three curves)
+		for _, d := range []string{"-", hexs(coordOfLen(r, size)), hexs(coordOfLen(r, 1))} {
+			p("keyrt %s _ %s %s", cn, hexs(coordOfLen(r, size)), d)
+			p("keyrt %s %s _ %s", cn, hexs(coordOfLen(r, size)), d)
+			p("keyrt %s _ _ %s", cn, d)
+			p("keyrt %s _ %s %s +kid", cn, hexs(coordOfLen(r, size-1)), d)
+		}
 		lens := []int{size, size - 1, size - 2, size - 5, 1, size / 2}
 		for _, lx := range lens {
 			for _, ly := range lens {
